@@ -126,6 +126,7 @@ class World(cpool.World):
         # the compiler server PROCESS dies (with its worker processes) and is started again:
         # everything it held is gone, its id counters start from scratch, instances reconnect
         c['nsrvcrash'] = 1 + t.draw(2, 'nsrvcrash') if st == 'remote_restart' else 0
+        self.keyed = st == 'remote_keyed'       # configuration values equal by key only (see cpool.KeyedVal)
         self.cfg = c
         return c
 
